@@ -141,8 +141,11 @@ def run(ctx):
     runlevel.with_extra(ctx, "c01typed", lambda: typed_start_specs(ctx))
     stats, samples = runlevel.pipe_replay(ctx, rep, "C01")
     fcov = runlevel.filter_events(ctx, rep, want_clauses=("in_box",))
+    # ONE WHOLE CALL of optimize() (Opt.init + Full.step + Opt.finish, the model of Props/C01Opt.lean): every pool run through the whole-call model
+    wstats = runlevel.whole_replay(ctx, rep, plain_only=True)
     traces = runlevel.get_pool(ctx)
     rep.coverage = {
+        "whole_run_model": wstats,
         "evaluations": stats["calls"] + nmesh + fcov["filter_events"], "distinct_nontrivial": stats["clamped_calls"] + stats["on_bound_calls"] + fcov["nontrivial"],
         "rule": "every target call, constraint call, log row and returned solution of the traced runs (box predicates evaluated by the Lean definitions on the observed points; provenance replayed through Pipe.step), "
                 "every contraints_check call (box clause), plus dyadic mesh/bound cases for the search-box computation; non-trivial = calls whose image was clamped or lies on a bound + filter calls that changed their input",
